@@ -229,6 +229,27 @@ func init() {
 						continue
 					}
 					r.ok(key, sp.fn, c.pos(clear.Pos()), "whole-struct clear of the reused "+sp.typ)
+					// fields sanitised by helper methods called on the target before the clear
+					helperSan := map[string]string{}
+					for _, b := range fn.Blocks {
+						for _, ins := range b.Instrs {
+							ci, ok := ins.(ssa.CallInstruction)
+							if !ok || !before(ins, clear) {
+								continue
+							}
+							sc := ci.Common().StaticCallee()
+							if sc == nil || !c.inRoot(sc) || sc.Blocks == nil || len(ci.Common().Args) == 0 || !targets[ci.Common().Args[0]] {
+								continue
+							}
+							for f, evs := range fieldEvents(sc, targetsOf(sc, 0)) {
+								for _, e := range evs {
+									if e.kind == "reset-call" {
+										helperSan[f] = fnName(sc)
+									}
+								}
+							}
+						}
+					}
 					for i := 0; i < st.NumFields(); i++ {
 						f := st.Field(i).Name()
 						key := sp.fn + "/" + f
@@ -248,6 +269,8 @@ func init() {
 						}
 						if how, ok := sanitised(fn, restores[0].val, clear); ok {
 							r.ok(key, sp.fn, c.pos(restores[0].ins.Pos()), "restored after sanitising: "+how)
+						} else if h, ok := helperSan[f]; ok {
+							r.ok(key, sp.fn, c.pos(restores[0].ins.Pos()), "restored after sanitising in helper "+h)
 						} else {
 							r.bad(key, sp.fn, c.pos(restores[0].ins.Pos()), "field "+f+" of the reused "+sp.typ+" is restored from its previous value without being sanitised (no reset()/Clear() on it, not re-sliced to [:0]): state of the previous use carries over")
 						}
@@ -662,6 +685,15 @@ func init() {
 						case *ssa.UnOp:
 							walk(x)
 						case *ssa.If, *ssa.DebugRef:
+						case *ssa.Phi:
+							walk(x)
+						case *ssa.Return:
+							// the estimate is computed by a helper: continue at its call sites
+							for _, site := range c.callsTo(x.Parent()) {
+								if call, ok := site.(*ssa.Call); ok {
+									walk(call)
+								}
+							}
 						case *ssa.Call:
 							if sc := x.Call.StaticCallee(); sc != nil && funcFullName(sc) == "bytes.(*Buffer).Grow" {
 								continue
